@@ -165,6 +165,8 @@ def drv_write(text, prep, how="default"):
     fmt.value_column = "auto"
     fb = dict(fmt.__dict__)
     before = snap(lib)
+    same = how.endswith("-same")       # the second call gets the very same middleware instances (a stack built once)
+    how = how[:-5] if same else how
     if how == "merge-prepend":
         # the documented way to write a library holding split names (also one holding an invalid-name error block)
         kw = {"prepend_middleware": [make_mw("mergeparts", False, None), make_mw("mergeco", False, None)]}
@@ -194,7 +196,9 @@ def drv_write(text, prep, how="default"):
         return before, mid, snap(lib), t1, t2, fb, dict(fmt.__dict__)
     t1 = bibtexparser.write_string(lib, bibtex_format=fmt, **kw)
     mid = snap(lib)
-    if how == "merge-prepend":
+    if same:
+        pass
+    elif how == "merge-prepend":
         kw = {"prepend_middleware": [make_mw("mergeparts", False, None), make_mw("mergeco", False, None)]}
     elif how == "copy-prepend":
         kw = {"prepend_middleware": [make_mw("sortalpha", False, None)]}
@@ -286,6 +290,8 @@ def native_run(text, prep, stack, inplace):
                 before = snap(lib)
             out = mw.transform(out)
     except Exception as ex:  # noqa
+        from pysym.harness import guard_repo_exception
+        guard_repo_exception(ex)
         out = None
         if not inplace and not always_copy(stack):
             lib2 = prepare(text, prep)
@@ -375,6 +381,8 @@ def task_write(prep, how="default"):
         try:
             r = drv_write(t, prep, how)
         except Exception as ex:  # noqa
+            from pysym.harness import guard_repo_exception
+            guard_repo_exception(ex)
             return {"input": [t, prep], "observed": f"raised {type(ex).__name__}: {ex}", "expected": "text twice"}
         if r[0] == r[1] == r[2] and r[3] == r[4] and r[5] == r[6]:
             return None
@@ -413,6 +421,10 @@ def main():
                 chk.add_task(f"write-{pn}-{how}", task_write, prep=prep, how=how)
         if pn == "names":
             chk.add_task(f"write-{pn}-merge-prepend", task_write, prep=prep, how="merge-prepend")
+            chk.add_task(f"write-{pn}-merge-prepend-same", task_write, prep=prep, how="merge-prepend-same")
+        if pn == "default":
+            chk.add_task(f"write-{pn}-copy-prepend-same", task_write, prep=prep, how="copy-prepend-same")
+            chk.add_task(f"write-{pn}-stack-same", task_write, prep=prep, how="stack-same")
     pairs = list(itertools.permutations(NAMES, 2)) if chk.tier == "thorough" else [
         ("remove", "addq"), ("separate", "splitnames"), ("splitnames", "mergeparts"), ("monthint", "monthlong"), ("normkeys", "sortalpha"),
         ("sortblocks", "remove"), ("remove", "sortblocks"), ("latexenc", "latexdec"), ("resolve", "sortcustom"), ("add{", "sortblocks2"),
